@@ -36,6 +36,8 @@ BeginClauses(r) ==
   \* the solver works on the range and step the caller asked for (to unit-conversion rounding): an entry point that trims or
   \* rounds them changes which multiples are owed
   If(~r.requestKept, "C03.RequestNotPassedOn") \cup
+  \* ... and records what was asked for: events exactly when extra data was requested
+  If(~r.extraKept, "C15.ExtraDataRequestNotPassedOn") \cup
   If(r.defaultStep /\ ~(r.Klo <= 11 /\ 11 <= r.Khi), "C03.DefaultStepEleven")
 
 OnBegin(r) ==
